@@ -81,7 +81,13 @@ def main():
             output.variables[name][:] = input.other_score(field.name())[:]
 
     output.standard_name = variable.name
-    output.units = unit = variable.units.replace("$", "")
+    if variable.units != "Unknown units":
+        output.units = variable.units.replace("$", "")
+    # Discrete probability masses of the variable (# x0: / # x1: lines)
+    if variable.x0 is not None:
+        output.x0 = variable.x0
+    if variable.x1 is not None:
+        output.x1 = variable.x1
 
     if input.obs is not None:
         vobs[:] = input.obs
